@@ -248,12 +248,21 @@ def check_n3(ctx) -> None:
               f'{mm.rel}:{dflt[0][0].lineno if dflt else 1}', 'the default report path is not HDR.out in the caller\'s directory')
     # consumers: Model.__init__ uses argv[2] for the report, main uses argv[2] for json + echo
     main = repo.function('geophires_x/GEOPHIRESv3.py', 'main')
-    js = [st for st in ast.walk(main.node) if isinstance(st, ast.Assign) and norm(st.targets[0]) == 'json_outputfile']
-    ctx.require(len(js) >= 2, 'GEOPHIRESv3.main: json_outputfile definitions not found')
-    derived = [st for st in js if 'output_arg' in norm(st.value)]
-    ctx.check(len(derived) == 1 and '.json' in norm(derived[0].value) and
-              ('stem' in norm(derived[0].value) or 'with_suffix' in norm(derived[0].value)), 'N3',
-              'GEOPHIRESv3.main/json-path-from-report-path', f'{main.module.rel}:{derived[0].lineno if derived else main.node.lineno}',
+    # the JSON path is the name main opens for writing and json-dumps into
+    JP = None
+    for n in ast.walk(main.node):
+        if isinstance(n, ast.With) and n.items and isinstance(n.items[0].context_expr, ast.Call) and dotted_name(n.items[0].context_expr.func) == 'open':
+            oc = n.items[0].context_expr
+            if len(oc.args) >= 2 and isinstance(oc.args[1], ast.Constant) and oc.args[1].value == 'w' and isinstance(oc.args[0], ast.Name) \
+                    and any((dotted_name(c.func) or '').startswith('json.dump') for c in calls_in(n)):
+                JP = oc.args[0].id
+    ctx.require(JP is not None, 'GEOPHIRESv3.main: the file the JSON is written to was not found (idiom changed)')
+    js = [st for st in ast.walk(main.node) if isinstance(st, ast.Assign) and norm(st.targets[0]) == JP]
+    ctx.require(len(js) >= 2, f'GEOPHIRESv3.main: {JP} definitions not found')
+    derived = [(st, norm(inline_sequential(st.value, st))) for st in js]
+    derived = [(st, v) for st, v in derived if 'sys.argv[2]' in v]
+    ctx.check(len(derived) == 1 and '.json' in derived[0][1] and ('stem' in derived[0][1] or 'with_suffix' in derived[0][1]), 'N3',
+              'GEOPHIRESv3.main/json-path-from-report-path', f'{main.module.rel}:{derived[0][0].lineno if derived else main.node.lineno}',
               'the JSON path is not derived from the report path (same directory, same stem)')
     model_init = repo.method('Model', '__init__', 'geophires_x/Model.py')
     # the report path variable is what the output objects are constructed with (`Outputs(self, output_file=<var>)`)
